@@ -1,7 +1,24 @@
+use xh::common::*;
+use xh::tree::*;
 use xot::Xot;
 fn main() {
-    let mut xot = Xot::new();
-    for t in ["<a xmlns:p=\"\" p:x=\"1\"/>", "<a xmlns:p=\"\" p:x=\"1\" x=\"2\"/>", "<a xmlns:p=\"\" x=\"1\" p:x=\"2\"/>", "<a xmlns:p=\"\"><p:b/></a>"] {
-        match xot.parse(t) { Ok(d) => println!("{} => OK {:?}", t, xot.to_string(d)), Err(e) => println!("{} => ERR {:?}", t, e) }
+    let base = Rng::new(1);
+    let mut count = [0usize; 6];
+    for k in 0..400u64 {
+        let mut r = base.fork(k);
+        let mut xot = Xot::new();
+        let mut reg = Reg::new(&xot);
+        let pool = make_pool(&mut xot, &mut reg, true);
+        let cfg = GenCfg { max_nodes: 25, max_depth: 5, xml_space: 10, ..GenCfg::default() };
+        let t = gen_tree(&mut r, &cfg, &pool);
+        fn depth(a: &ANode) -> usize { match a { ANode::Doc(k) => 1 + k.iter().map(depth).max().unwrap_or(0), ANode::Elem { kids, .. } => 1 + kids.iter().map(depth).max().unwrap_or(0), _ => 1 } }
+        let d = depth(&t);
+        count[(d / 8).min(5)] += 1;
+        if d > 16 {
+            let root = build(&mut xot, &reg, &t);
+            let s = xot.serialize_xml_string(xot::output::xml::Parameters { indentation: Some(Default::default()), ..Default::default() }, root);
+            println!("case {} depth {} pretty {:?}", k, d, s.map(|x| x.lines().map(|l| l.len() - l.trim_start().len()).max()));
+        }
     }
+    println!("{:?}", count);
 }
